@@ -93,6 +93,96 @@ def run_twins(mod, pm, base_keys):
         return [_one_twin(i) for i in range(len(TWINS))]
 
 
+def apply_unified_diff(sources, diff_text):
+    """apply a git unified diff to {relpath: text}; returns the changed {relpath: new text} or raises ValueError"""
+    import re
+    changed = {}
+    files = re.split(r"^diff --git .*$", diff_text, flags=re.M)
+    for chunk in files:
+        m = re.search(r"^\+\+\+ b/(.+)$", chunk, flags=re.M)
+        if not m:
+            continue
+        rel = m.group(1).strip()
+        if rel not in sources:
+            raise ValueError(f"{rel} is not an analysed unit")
+        lines = sources[rel].split("\n")
+        out, pos = [], 0
+        for h in re.finditer(r"^@@ -(\d+)(?:,(\d+))? \+(\d+)(?:,(\d+))? @@.*\n((?:[ +\-\\].*\n?|\n)*)", chunk, flags=re.M):
+            start = int(h.group(1)) - 1
+            body = h.group(5).split("\n")
+            if body and body[-1] == "":
+                body = body[:-1]
+            out.extend(lines[pos:start])
+            pos = start
+            for bl in body:
+                if bl.startswith("\\"):
+                    continue
+                tag, txt = (bl[0], bl[1:]) if bl else (" ", "")
+                if tag == " ":
+                    if pos >= len(lines) or lines[pos] != txt:
+                        raise ValueError(f"context mismatch in {rel} at line {pos + 1}")
+                    out.append(lines[pos])
+                    pos += 1
+                elif tag == "-":
+                    if pos >= len(lines) or lines[pos] != txt:
+                        raise ValueError(f"removal mismatch in {rel} at line {pos + 1}")
+                    pos += 1
+                elif tag == "+":
+                    out.append(txt)
+        out.extend(lines[pos:])
+        changed[rel] = "\n".join(out)
+    if not changed:
+        raise ValueError("empty diff")
+    return changed
+
+
+def _one_seed(i):
+    mod, pm, seeds = _G["mod"], _G["pm"], _G["seeds"]
+    sid, diff = seeds[i]
+    try:
+        changes = apply_unified_diff(pm.sources, diff)
+    except ValueError as e:
+        return {"id": sid, "status": "n/a", "note": f"patch no longer applies: {e}"}
+    try:
+        pm2 = pm.mutated(changes)
+        ctx2 = Ctx(mod.PROP, "control", quiet=True)
+        mod.run(pm2, ctx2)
+    except pmmod.AnalysisError as e:
+        return {"id": sid, "status": "undecided", "note": str(e)[:200]}
+    except Exception as e:      # a seeded defect must never crash the analysis
+        return {"id": sid, "status": "crash", "note": repr(e)[:200]}
+    new = [f for f in ctx2.findings if f.key_tuple() not in _G["base_keys"]]
+    if new:
+        return {"id": sid, "status": "reported", "note": str(new[0])[:260]}
+    return {"id": sid, "status": "undecided" if ctx2.undecided else "missed", "note": (ctx2.undecided[0]["why"][:200] if ctx2.undecided else "")}
+
+
+def run_seeds(mod, pm, base_keys):
+    """thorough tier: every kept seeded defect (and every re-introduced original defect) that this property's check is
+    recorded to report must still be reported (regression of the catch matrix)."""
+    import glob
+    seeds = []
+    root = os.path.join(os.path.dirname(HERE), "seeded")
+    for d in sorted(glob.glob(os.path.join(root, "*"))):
+        mp, pp = os.path.join(d, "meta.json"), os.path.join(d, "patch.diff")
+        if not (os.path.isfile(mp) and os.path.isfile(pp)):
+            continue
+        m = json.load(open(mp))
+        expected = set(m.get("checks", {})) | set(m.get("detected_by", {}))
+        expected = {p for p in expected if (m.get("checks", {}).get(p, {}).get("exit", 1) == 1)}
+        if mod.PROP in expected:
+            seeds.append((os.path.basename(d), open(pp).read()))
+    if not seeds:
+        return []
+    import multiprocessing as mp_
+    _G.update(mod=mod, pm=pm, seeds=seeds, base_keys=base_keys)
+    try:
+        with mp_.get_context("fork").Pool(min(len(seeds), os.cpu_count() or 4)) as pool:
+            return pool.map(_one_seed, range(len(seeds)))
+    except Exception:
+        return [_one_seed(i) for i in range(len(seeds))]
+
+
 def _run_control(mod, pm, tier, c):
     res = []
     for c in [c]:
@@ -160,8 +250,16 @@ def main():
             twins = run_twins(mod, pm, base_keys)
             extra["benign_twins"] = twins
             extra["benign_twins_summary"] = {k: sum(1 for t in twins if t["status"] == k) for k in ("silent", "undecided", "false-alarm", "n/a")}
+            seeds_res = run_seeds(mod, pm, base_keys)
+            extra["seeded_defects"] = seeds_res
+            extra["seeded_defects_summary"] = {k: sum(1 for t in seeds_res if t["status"] == k) for k in ("reported", "missed", "undecided", "crash", "n/a")}
         rc = finalize(ctx, census, controls, mod.ASSUMPTIONS, mod.EXPLANATION,
                       level=getattr(mod, "LEVEL", "other"), extra_cov=extra)
+        lost = [t for t in (extra.get("seeded_defects") or []) if t["status"] in ("missed", "crash")]
+        if lost and rc == 0:
+            for t in lost:
+                print(f"ANALYSIS-ERROR property={prop} rule self-check: seeded defect '{t['id']}' is no longer reported ({t['status']})")
+            return 2
         bad = [t for t in twins if t["status"] == "false-alarm"]
         if bad and rc == 0:
             for t in bad:
